@@ -180,6 +180,7 @@ func cmdUnit(args []string) {
 	verbose := fs.Bool("v", false, "verbose")
 	qt := fs.Int("t", 10, "quick timeout")
 	lt := fs.Int("T", 30, "long timeout")
+	sweep := fs.Bool("sweep", false, "zero-annotation sweep mode: only functions without contract, pointer parameters assumed non-nil")
 	fs.Parse(args)
 	os.MkdirAll(*dir, 0o755)
 	t0 := time.Now()
@@ -210,6 +211,22 @@ func cmdUnit(args []string) {
 			continue
 		}
 		for _, k := range keys {
+			if *sweep {
+				v.sweepMode = true
+				fn := v.fnByKey[k]
+				if !strings.Contains(k, pat) || !v.inRepo2(fn) || v.db.Funcs[k] != nil || fn.Blocks == nil || fn.Synthetic != "" {
+					continue
+				}
+				if fn.Parent() != nil && !closureEscapes(fn) {
+					continue // called in place: part of its parent
+				}
+				u := v.verifyFunc(fn, nil)
+				units = append(units, u)
+				if u.Err != "" {
+					fmt.Printf("unit %s: err=%q\n", k, u.Err)
+				}
+				continue
+			}
 			if strings.Contains(k, pat) && v.inRepo(v.fnByKey[k]) && (v.fnByKey[k].Parent() == nil || v.db.Funcs[k] != nil) {
 				fn := v.fnByKey[k]
 				u := v.verifyFunc(fn, v.db.Funcs[k])
